@@ -745,7 +745,8 @@ def eigvec_case(draw):
     else:
         query = lam0
     return dict(n=n, shape=shape, trs=trs, q=q, query=query,
-                cv=draw(st.booleans()))
+                cv=draw(st.booleans()),
+                via=draw(st.sampled_from(["direct", "direct", "product", "reassigned"])))
 
 
 def _build_T(case):
@@ -758,6 +759,29 @@ def _build_T(case):
         Ss.append(S)
         lams.append(lam)
     C = np.array(mats).reshape(shape + (N, N))
+    via = case.get("via", "direct")
+    if via != "direct":
+        # the same transformation obtained as a product A @ B, or written with set() into an
+        # existing object - after B (that object) has already answered eigen-queries about
+        # its own matrix diag(1, ..., N): what it answered then must not be what T answers
+        Bc = np.diag(np.arange(1.0, N + 1.0))
+        B = projective.Transformation(np.broadcast_to(Bc, shape + (N, N)).copy(),
+                                      column_vectors=True)
+        for query in (None, 1.0, float(N)):
+            try:
+                B.eigenvector(query)
+            except GeometryError:
+                pass
+        B.diagonalize()
+        B.diagonalize(return_inv=True)
+        if via == "product":
+            A = projective.Transformation(C @ np.diag(1.0 / np.arange(1.0, N + 1.0)),
+                                          column_vectors=True)
+            T = A @ B
+        else:
+            B.set(np.ascontiguousarray(C.swapaxes(-1, -2)))
+            T = B
+        return T, C, Ss, lams
     if case["cv"]:
         T = projective.Transformation(C.copy(), column_vectors=True)
     else:
@@ -770,7 +794,7 @@ def body_eigvec(case, ctx):
     N = n + 1
     T, C, Ss, lams = _build_T(case)
     _labels(ctx, n, shape)
-    ctx.label("query=" + q, "column_vectors=%s" % case["cv"])
+    ctx.label("query=" + q, "column_vectors=%s" % case["cv"], "via=" + case.get("via", "direct"))
     query = None if q == "none" else float(case["query"])
     present = [bool(np.any(np.isclose(l, case["query"], rtol=1e-6, atol=0))) for l in lams]
     single = (len(shape) == 0)
@@ -830,7 +854,8 @@ def diag_case(draw):
     shape = draw(gen.shapes(max_rank=2))
     trs = [draw(eig_transform(N)) for _ in range(gen.prod(shape))]
     return dict(n=n, shape=shape, trs=trs, cv=draw(st.booleans()),
-                return_inv=draw(st.booleans()))
+                return_inv=draw(st.booleans()),
+                via=draw(st.sampled_from(["direct", "direct", "product", "reassigned"])))
 
 
 def body_diag(case, ctx):
@@ -838,7 +863,7 @@ def body_diag(case, ctx):
     N = n + 1
     T, C, Ss, lams = _build_T(case)
     _labels(ctx, n, shape)
-    ctx.label("return_inv=%s" % case["return_inv"])
+    ctx.label("return_inv=%s" % case["return_inv"], "via=" + case.get("via", "direct"))
     if case["return_inv"]:
         res = T.diagonalize(return_inv=True)
         ctx.check(isinstance(res, tuple) and len(res) == 2, "return_inv=True returns a pair")
